@@ -6,6 +6,12 @@ ALL = ["C%02d" % i for i in range(1, 21)]
 
 # property id -> dict(category, text, note, technique, design_ref)
 CLAIMED = {
+    "C14": dict(
+        category="translation_validation",
+        text="Value-graph translation validation of murmur3_32 against the reference MurmurHash3_x86_32 written in the checker: initial state, loop header and little-endian byte indices, block body, the four tail cases followed by the finaliser are each normalised to a term over + * ^ | & << >> modulo 2**32 (rotl recognition, bit-disjoint |,^,+ unified) and must be syntactically equal to the reference term; a width analysis shows every operand of >> and the result are below 2**32. Decided for code points 0..255 and len < 2**32; for other strings only width and purity.",
+        note="Trusted: CPython ast; the term normaliser (pmcsa/termeval.py); the reference terms transcribed from Appleby's C source. An operator without an exact transformer is ANALYSIS-ERROR, not a verdict.",
+        technique="value-graph normalisation / translation validation mod 2^32 + bit-width dataflow",
+    ),
     "C20": dict(
         category="proof",
         text="check_key_helper is evaluated abstractly over a byte-string shape domain (patterns of runs of ordinary / non-ASCII / each of the six whitespace bytes / NUL, up to 3 runs quick and 4 thorough, with prefix shapes and length scenarios 249/250/251 in characters, encoded bytes and prefixed bytes): >55k abstract inputs, each compared with the specified predicate, exception type and return value; plus call-site rules showing the three client classes apply this one function with their own prefix/unicode setting and that every key fragment on the wire went through it.",
